@@ -14,10 +14,25 @@ package dynblock
 
 // (extendSchema: verified below, unit U13d)
 
+// expandBlocks (round 7: no longer trusted). Its write frame and the freshness of the diagnostics
+// it returns stay assumed (the callees it hands the blocks to carry no verified frame); what is
+// verified are call-site assertions over its locals:
+//  - the body of a block generated for one iteration is expanded under exactly the child iteration
+//    that was made for it (i, fresh from MakeChild) - for a known for_each element and for the
+//    placeholder of an unknown for_each alike (the template of an unknown body holds nested dynamic
+//    blocks whose for_each is evaluated in that scope) - and with the marks of this for_each;
+//  - the collection whose elements become iterator values is the for_each value unmarked at the
+//    top level only (shallowUnmark): marks on individual elements stay on the iterator values.
+// A callsite clause applies where its locals are in scope: the static-block call of expandChild
+// (no i, no marks in scope) is not constrained by them.
 // verif:func (*expandBody).expandBlocks
-//@ trusted
-//@ assigns nothing
-//@ ensures ret1 == nil || fresh(ret1)
+//@ nosafety
+//@ assumesassigns nothing
+//@ assumes ret1 == nil || fresh(ret1)
+//@ callsite expandChild iter: arg2 == i && i != old(b.iteration)
+//@ callsite expandChild marks: arg3 == marks
+//@ callsite ElementIterator shallow: arg0 == shallowUnmark(spec.forEachVal)
+//@ callsite MakeChild parent: arg0 == b.iteration && arg1 == spec.iteratorName
 
 // prepareAttributes is verified for the hiding rule (C04: an attribute consumed by an earlier partial
 // step is never handed out again, whichever wrapping the attributes need) and for its frame; that
